@@ -34,7 +34,7 @@ type PkgSpec struct {
 }
 
 type Step struct {
-	K       string `json:"k"`   // edit-src edit-src-same edit-c edit-embed tag x abi build noop clear crash fserr
+	K       string `json:"k"`   // edit-src edit-src-same edit-c edit-embed tag x abi env repro build noop clear crash fserr
 	Pkg     int    `json:"pkg"` // package index for edits
 	Arg     int    `json:"arg,omitempty"`
 	Torn    bool   `json:"torn,omitempty"`
@@ -94,6 +94,10 @@ func battery(clock string, embed bool) *Scenario {
 		{K: "edit-src", Pkg: 1}, {K: "fserr", Pkg: 1, Target: "archive-close"}, b,
 		{K: "edit-src-same", Pkg: 3}, {K: "fserr", Pkg: 3, Target: "manifest-write"}, b,
 		{K: "abi", Arg: 1}, b,
+		{K: "repro"}, // the same sources compiled by two compiler processes: byte-identical intermediate code
+		{K: "abi", Arg: 2}, {K: "env", Arg: 1}, b, // LLGO_TRACE=1: every function announces itself; all packages must be recompiled
+		{K: "edit-src-same", Pkg: 3}, b,
+		{K: "env", Arg: 0}, b, // and back: the traced archives must not be reused
 	}
 	if embed {
 		sc.Steps = append(sc.Steps, Step{K: "edit-embed", Pkg: 3}, b)
@@ -183,6 +187,10 @@ func (prop) Generate(rng *sim.Rng, tier string, runIndex int) driver.Scenario {
 			st = Step{K: "noop"}
 		case r == 12:
 			st = Step{K: "clear"}
+		case r == 15 && rng.Intn(2) == 0:
+			st = Step{K: "env", Arg: rng.Intn(2)}
+		case r == 15:
+			st = Step{K: "repro"}
 		case r == 13 || r == 14:
 			// a crash (or disk error) during the next build, at cache operation k
 			st = Step{K: []string{"crash", "crash", "fserr"}[rng.Intn(3)], Arg: rng.Range(1, 60), Torn: rng.Intn(3) == 0}
@@ -194,7 +202,7 @@ func (prop) Generate(rng *sim.Rng, tier string, runIndex int) driver.Scenario {
 			st = Step{K: "edit-src", Pkg: pi}
 		}
 		sc.Steps = append(sc.Steps, st)
-		if st.K != "noop" && st.K != "clear" && st.K != "crash" && st.K != "fserr" {
+		if st.K != "noop" && st.K != "clear" && st.K != "crash" && st.K != "fserr" && st.K != "repro" {
 			// every edit is followed by a rebuild (possibly an interrupted one first)
 			if rng.Intn(4) == 0 {
 				sc.Steps = append(sc.Steps, Step{K: []string{"crash", "fserr"}[rng.Intn(2)], Arg: rng.Range(0, 30), Torn: rng.Intn(3) == 0, FromEnd: true})
@@ -232,6 +240,7 @@ type world struct {
 	st    []pkgState
 	tag   bool
 	abi   int
+	trace bool  // LLGO_TRACE=1
 	clock int64 // simulated file-time clock (unix ns)
 	log   []string
 	keep  bool
@@ -417,14 +426,16 @@ func (w *world) writeAll() {
 type buildResult struct {
 	ok       bool
 	killed   bool
-	output   string // program output
+	output   string // program output (standard error: println)
+	stdout   string // standard output: the "call <function>" lines of a traced program
 	buildLog string
 	ops      []string // cache operations performed (from the seam's log)
 	hits     int
 }
 
-func (w *world) build(crashAt int, fserr int, torn bool, match ...string) buildResult {
-	args := []string{"build", "-v", "-o", filepath.Join(w.dir, "prog.out")}
+// buildArgs is the llgo command line for the world's current configuration.
+func (w *world) buildArgs(out string) []string {
+	args := []string{"build", "-v", "-o", out}
 	anyEmbed := false
 	for _, p := range w.sc.Pkgs {
 		anyEmbed = anyEmbed || p.Embed
@@ -449,7 +460,17 @@ func (w *world) build(crashAt int, fserr int, torn bool, match ...string) buildR
 	if len(xs) > 0 {
 		args = append(args, "-ldflags", strings.Join(xs, " "))
 	}
-	args = append(args, ".")
+	return append(args, ".")
+}
+
+func (w *world) baseEnv(cache string) []string {
+	return []string{"PATH=" + go123 + ":/usr/bin:/bin", "HOME=" + tmpRoot, "LLGO_ROOT=" + repoDir, "LLVM_CONFIG=" + shimDir + "/bin/llvm-config",
+		"GOTOOLCHAIN=local", "GOFLAGS=-mod=mod", "GOPROXY=off", "GOWORK=off", "XDG_CACHE_HOME=" + cache,
+		"GOCACHE=" + goEnv("GOCACHE"), "GOMODCACHE=" + goEnv("GOMODCACHE")}
+}
+
+func (w *world) build(crashAt int, fserr int, torn bool, match ...string) buildResult {
+	args := w.buildArgs(filepath.Join(w.dir, "prog.out"))
 	oplog := filepath.Join(w.dir, "oplog.txt")
 	os.Remove(oplog)
 	os.Remove(filepath.Join(w.dir, "prog.out"))
@@ -457,9 +478,10 @@ func (w *world) build(crashAt int, fserr int, torn bool, match ...string) buildR
 	defer bcancel()
 	cmd := exec.CommandContext(bctx, llgoBin, args...)
 	cmd.Dir = w.dir
-	cmd.Env = []string{"PATH=" + go123 + ":/usr/bin:/bin", "HOME=" + tmpRoot, "LLGO_ROOT=" + repoDir, "LLVM_CONFIG=" + shimDir + "/bin/llvm-config",
-		"GOTOOLCHAIN=local", "GOFLAGS=-mod=mod", "GOPROXY=off", "GOWORK=off", "XDG_CACHE_HOME=" + w.cache, "VERIF_OPLOG=" + oplog,
-		"GOCACHE=" + goEnv("GOCACHE"), "GOMODCACHE=" + goEnv("GOMODCACHE")}
+	cmd.Env = append(w.baseEnv(w.cache), "VERIF_OPLOG="+oplog)
+	if w.trace {
+		cmd.Env = append(cmd.Env, "LLGO_TRACE=1")
+	}
 	if len(match) > 0 && match[0] != "" {
 		if strings.HasPrefix(match[0], "fserr:") {
 			cmd.Env = append(cmd.Env, "VERIF_FSERR_MATCH="+strings.TrimPrefix(match[0], "fserr:"))
@@ -495,16 +517,114 @@ func (w *world) build(crashAt int, fserr int, torn bool, match ...string) buildR
 	defer rcancel()
 	run := exec.CommandContext(rctx, filepath.Join(w.dir, "prog.out"))
 	run.Dir = w.dir
-	var po bytes.Buffer
-	run.Stdout, run.Stderr = &po, &po
+	// println writes to standard error, the call trace to (buffered) standard output:
+	// kept apart, because a flush of the latter may land in the middle of a line
+	var po, so bytes.Buffer
+	run.Stdout, run.Stderr = &so, &po
 	if e := run.Run(); e != nil {
 		r.output = po.String() + "\n[program failed: " + e.Error() + "]"
+		r.stdout = so.String()
 		r.ok = true // the build succeeded; the program's behaviour is what is compared
 		return r
 	}
 	r.ok = true
 	r.output = po.String()
+	r.stdout = so.String()
 	return r
+}
+
+// lineCalls is how often package i's Line() runs: once from main and once per
+// run of each importer's Line().
+func (w *world) lineCalls(i int) int {
+	n := 1
+	for j, p := range w.sc.Pkgs {
+		for _, im := range p.Imports {
+			if im == w.sc.Pkgs[i].Name {
+				n += w.lineCalls(j)
+			}
+		}
+	}
+	return n
+}
+
+// mismatch compares what the built program did with what the sources and the
+// configuration prescribe; "" if they agree.
+func (w *world) mismatch(r buildResult) string {
+	if want := w.expected(); r.output != want {
+		return fmt.Sprintf("prints\n%q\nbut its sources prescribe\n%q", r.output, want)
+	}
+	calls := map[string]int{}
+	for _, l := range strings.Split(r.stdout, "\n") {
+		if strings.HasPrefix(l, "call c13mod/") {
+			calls[strings.TrimPrefix(l, "call ")]++
+		} else if !w.trace && strings.HasPrefix(l, "call ") {
+			calls[strings.TrimPrefix(l, "call ")]++
+		}
+	}
+	for i, p := range w.sc.Pkgs {
+		fn := "c13mod/" + p.Name + ".Line"
+		want := 0
+		if w.trace {
+			want = w.lineCalls(i)
+		}
+		if calls[fn] != want {
+			return fmt.Sprintf("was built with LLGO_TRACE=%v and announces %d calls of %s; %d prescribed (a package compiled under the other setting was reused)", w.trace, calls[fn], fn, want)
+		}
+	}
+	if !w.trace && len(calls) > 0 {
+		for fn, n := range calls {
+			return fmt.Sprintf("was built without LLGO_TRACE and yet announces %d calls of %s", n, fn)
+		}
+	}
+	return ""
+}
+
+// irBuild compiles the module in a fresh cache (the warm runtime template
+// only) with -gen-llfiles and returns the intermediate code of every package
+// compiled, keyed by the package's export name.
+func (w *world) irBuild(k int) (map[string][]byte, string) {
+	root := filepath.Dir(w.dir)
+	cache := filepath.Join(root, fmt.Sprintf("ircache%d", k))
+	tmp := filepath.Join(root, fmt.Sprintf("irtmp%d", k))
+	os.RemoveAll(cache)
+	os.RemoveAll(tmp)
+	os.MkdirAll(cache, 0o755)
+	os.MkdirAll(tmp, 0o755)
+	defer os.RemoveAll(cache)
+	defer os.RemoveAll(tmp)
+	if out, err := exec.Command("cp", "-al", filepath.Join(warmDir, "llgo"), filepath.Join(cache, "llgo")).CombinedOutput(); err != nil {
+		return nil, "cannot copy the warm cache: " + string(out)
+	}
+	args := w.buildArgs(filepath.Join(tmp, "prog.out"))
+	args = append([]string{args[0], "-gen-llfiles"}, args[1:]...)
+	bctx, bcancel := context.WithTimeout(context.Background(), 15*time.Minute)
+	defer bcancel()
+	cmd := exec.CommandContext(bctx, llgoBin, args...)
+	cmd.Dir = w.dir
+	cmd.Env = append(w.baseEnv(cache), "TMPDIR="+tmp)
+	if w.trace {
+		cmd.Env = append(cmd.Env, "LLGO_TRACE=1")
+	}
+	out, _ := cmd.CombinedOutput() // with LLVM 14 the textual round trip of some packages fails after their .ll was written
+	files, _ := filepath.Glob(filepath.Join(tmp, "*.ll"))
+	ir := map[string][]byte{}
+	for _, f := range files {
+		name := filepath.Base(f)
+		if i := strings.LastIndexByte(name, '-'); i > 0 {
+			name = name[:i]
+		}
+		b, err := os.ReadFile(f)
+		if err != nil {
+			continue
+		}
+		if i := bytes.Index(b, []byte("source_filename = \"")); i >= 0 {
+			if j := bytes.IndexByte(b[i+19:], '"'); j >= 0 {
+				name = string(b[i+19:i+19+j]) + " " + name[len(name)-min(len(name), 6):]
+			}
+		}
+		ir[name] = b
+	}
+	return ir, lastLines(string(out), 3)
 }
 
 var goEnvCache = map[string]string{}
@@ -615,6 +735,50 @@ func (prop) Run(scx driver.Scenario, ch *sim.Choices, keep bool) *driver.Result 
 			w.abi = st.Arg
 			lastEdit, sameMtime = st.K, false
 			w.logf("step %d: -abi %d", si, w.abi)
+		case "env":
+			w.trace = st.Arg == 1
+			lastEdit, sameMtime = st.K, false
+			res.Probes["env-LLGO_TRACE-changes"]++
+			w.logf("step %d: LLGO_TRACE=%v", si, w.trace)
+		case "repro":
+			a, la := w.irBuild(1)
+			b, lb := w.irBuild(2)
+			builds += 2
+			res.Probes["ir-reproducibility-comparisons"]++
+			user := 0
+			for n := range a {
+				if strings.HasPrefix(n, "c13mod") {
+					user++
+				}
+			}
+			w.logf("step %d: two compiler processes, fresh caches: %d and %d packages' intermediate code (%d of the module)", si, len(a), len(b), user)
+			if user < len(sc.Pkgs) {
+				viol, detail = "infra-build-failed", fmt.Sprintf("step %d: -gen-llfiles produced intermediate code for %d of the module's packages only: %s | %s", si, user, la, lb)
+				break
+			}
+			// packages outside the module (a configuration without a warm runtime)
+			// are compared when both builds got as far as emitting them: with LLVM 14
+			// the textual round trip of the runtime package fails and ends the build
+			var names []string
+			for n := range a {
+				if _, ok := b[n]; ok || strings.HasPrefix(n, "c13mod") {
+					names = append(names, n)
+				}
+			}
+			for n := range b {
+				if _, ok := a[n]; !ok && strings.HasPrefix(n, "c13mod") {
+					names = append(names, n)
+				}
+			}
+			sort.Strings(names)
+			res.Counters["ir-files-compared"] += len(names)
+			for _, n := range names {
+				if !bytes.Equal(a[n], b[n]) {
+					viol, detail = "ir-not-reproducible", fmt.Sprintf("step %d: two builds of the same sources with the same configuration emit different intermediate code for %s: %s", si, n, firstDiff(a[n], b[n]))
+					tags = append(tags, "pkg:"+strings.Fields(n)[0])
+					break
+				}
+			}
 		case "clear":
 			os.RemoveAll(filepath.Join(w.cache, "llgo", "build"))
 			exec.Command("cp", "-al", filepath.Join(warmDir, "llgo", "build"), filepath.Join(w.cache, "llgo", "build")).Run()
@@ -675,13 +839,13 @@ func (prop) Run(scx driver.Scenario, ch *sim.Choices, keep bool) *driver.Result 
 					res.Faults["disk-error-during-build"]++
 					res.Probes["disk-error-targeted-"+pendingFault.Target]++
 					w.logf("step %d: injected disk error while publishing (%s); llgo warned and went on", si, pendingFault.Target)
-					if r.output != w.expected() {
-						viol, detail = "stale-output", fmt.Sprintf("step %d: program output after the build differs from what the sources prescribe:\n got: %q\nwant: %q", si, r.output, w.expected())
+					if mm := w.mismatch(r); mm != "" {
+						viol, detail = "stale-output", fmt.Sprintf("step %d: the program built by the build that met the injected fault %s", si, mm)
 					}
 				} else {
 					w.logf("step %d: fault point %d not reached (build performed %d cache operations)", si, crashAt+fserr, len(r.ops))
-					if r.output != w.expected() {
-						viol, detail = "stale-output", fmt.Sprintf("step %d: program output after the build differs from what the sources prescribe:\n got: %q\nwant: %q", si, r.output, w.expected())
+					if mm := w.mismatch(r); mm != "" {
+						viol, detail = "stale-output", fmt.Sprintf("step %d: the program built by the build that met the injected fault %s", si, mm)
 					}
 				}
 				pendingFault = Step{}
@@ -711,15 +875,14 @@ func (prop) Run(scx driver.Scenario, ch *sim.Choices, keep bool) *driver.Result 
 				viol, detail = "infra-build-failed", fmt.Sprintf("step %d: llgo build fails also with a clean cache: %s", si, lastLines(r2.buildLog, 6))
 				break
 			}
-			want := w.expected()
 			lastOps = len(r.ops)
 			w.logf("step %d: build ok (%d cache operations); output %q", si, len(r.ops), r.output)
-			if r.output != want {
+			if mm := w.mismatch(r); mm != "" {
 				cls := "stale-output"
 				if afterFault {
 					cls = "stale-output-after-crash"
 				}
-				viol, detail = cls, fmt.Sprintf("step %d: the program built after %q prints\n%q\nbut its sources prescribe\n%q", si, lastEdit, r.output, want)
+				viol, detail = cls, fmt.Sprintf("step %d: the program built after %q %s", si, lastEdit, mm)
 				tags = append(tags, "last-edit:"+lastEdit, "clock:"+sc.Clock)
 				if sameMtime {
 					tags = append(tags, "edit-left-size-and-mtime-unchanged")
@@ -755,6 +918,19 @@ func (prop) Run(scx driver.Scenario, ch *sim.Choices, keep bool) *driver.Result 
 		res.Log = append(w.log, fmt.Sprintf("end: %d builds; outcome: %s %s", builds, viol, detail))
 	}
 	return res
+}
+
+func firstDiff(a, b []byte) string {
+	if a == nil || b == nil {
+		return "emitted by one of the two builds only"
+	}
+	la, lb := strings.Split(string(a), "\n"), strings.Split(string(b), "\n")
+	for i := 0; i < len(la) && i < len(lb); i++ {
+		if la[i] != lb[i] {
+			return fmt.Sprintf("line %d: %q vs %q", i+1, la[i], lb[i])
+		}
+	}
+	return fmt.Sprintf("%d vs %d lines", len(la), len(lb))
 }
 
 func shorten(s string, w *world) string { return strings.ReplaceAll(s, w.cache, "$CACHE") }
@@ -819,7 +995,7 @@ func (prop) Shrink(scx driver.Scenario) []driver.Scenario {
 
 func (prop) Describe() driver.Description {
 	return driver.Description{
-		Rule: "a case is one history of 3-12 steps (edit one build input - Go source same/different size, C side file, embedded file, build tag, -X value, ABI mode - rebuild, no-op rebuild, cache clear, build killed at cache operation k, disk error at cache operation k) on a generated module of 2-6 packages with a private build cache and a simulated file-time clock (normal, stalled, backwards, coarse); each build runs the real llgo and the built program; non-trivial: at least two builds; distinct = distinct hash of the (step, program output) sequence",
+		Rule: "a case is one history of 3-12 steps (edit one build input - Go source same/different size, C side file, embedded file, build tag, ABI mode, LLGO_TRACE - rebuild, two-process intermediate-code comparison, no-op rebuild, cache clear, build killed at cache operation k, disk error at cache operation k) on a generated module of 2-6 packages with a private build cache and a simulated file-time clock (normal, stalled, backwards, coarse); each build runs the real llgo and the built program; non-trivial: at least two builds; distinct = distinct hash of the (step, program output) sequence",
 		Components: []driver.Component{
 			{Name: "llgo (cmd/llgo, internal/build, cl, ssa, runtime)", Real: true, What: "built from the working tree at every check"},
 			{Name: "internal/build cache.go, collect.go, createArchiveFile", Real: true, What: "file-system calls routed through a counting seam supplied by go build -overlay (kill / fail at operation k); logic unchanged"},
@@ -828,8 +1004,8 @@ func (prop) Describe() driver.Description {
 			{Name: "file mtimes", Real: false, What: "stamped from the simulated clock with os.Chtimes"},
 		},
 		Assumptions: []string{
-			"byte-reproducibility of intermediate code is not decided here (the compiler's nondeterminism source, Go map iteration, is outside any seam)",
-			"optimisation level and environment variables do not change what a println program prints, so their staleness is not observable by this oracle",
+			"byte-reproducibility of intermediate code is sampled, not simulated: a repro step runs two compiler processes on the same sources (fresh caches, different temporary directories) and compares every package's .ll byte for byte; the processes differ in Go's per-process map-iteration seed, which is outside any seam, so a difference is reported with the histories that showed it and is expected, not guaranteed, to recur on replay",
+			"of the environment variables in the cache key only LLGO_TRACE changes what a program does (every function announces itself); optimisation level and the debug variables do not change what a println program prints, so their staleness is not observable by this oracle",
 			"a build that fails after an injected crash is an observation, not a violation",
 			"concurrent llgo processes sharing one cache are not interleaved",
 		},
@@ -840,6 +1016,5 @@ func (prop) Describe() driver.Description {
 	}
 }
 
-var _ = sort.Strings
 
 func main() { driver.Main(prop{}) }
